@@ -8,6 +8,6 @@ CONSTANTS
   Cap = 2
   MaxTag = 4
 INVARIANTS TypeOK C16_DistinctIds C16_RoutedById C16_NoOther C16_CloseFailsAll
-PROPERTIES C16_FirstReaches C16_UnknownDropped C16_CloseFailsAllStep C16_OnlyPendingReceive
+PROPERTIES C16_Reaches C16_UnknownDropped C16_CloseFailsAllStep C16_OnlyPendingReceive
 SYMMETRY MC_Symm
 CHECK_DEADLOCK FALSE
